@@ -33,7 +33,7 @@ def _grid(n, prefix="p"):
     return ps, dom
 
 
-def replay_pp(model, n=3, mode="reference"):
+def replay_pp(model, n=3, mode="reference", labelled=False):
     import numpy as np
     from bluebonnet.flow import flowproperties as fp
     names = [f"p{k}" for k in range(n)] + [f"So{k}" for k in range(n)] + list(RHO) + ["scale"]
@@ -43,7 +43,17 @@ def replay_pp(model, n=3, mode="reference"):
     kr = {k: uf_callable(model, k, 0.5) for k in KR_FUNCS}
     p = np.array([m[f"p{k}"] for k in range(n)])
     so = np.array([m[f"So{k}"] for k in range(n)])
-    got = np.asarray(fp.pseudopressure_threephase(p, so, pvt, kr), dtype=float)
+    if labelled:
+        # the columns of a DataFrame whose rows were put in order with sort_values: labels n-1 .. 0
+        import pandas as pd
+        lab = list(range(n - 1, -1, -1))
+        p_in, so_in = pd.Series(p, index=lab), pd.Series(so, index=lab)
+    else:
+        p_in, so_in = p, so
+    try:
+        got = np.asarray(fp.pseudopressure_threephase(p_in, so_in, pvt, kr), dtype=float)
+    except (KeyError, IndexError, ValueError, TypeError) as ex:
+        return True, {"what": f"pseudopressure_threephase raised {ex!r} on an admissible table", "inputs": m}
     lam = np.array([float(mobility(pvt, kr, p[k], so[k])) for k in range(n)])
     want = np.concatenate([[0.0], np.cumsum(np.diff(p) * (lam[:-1] + lam[1:]) / 2)])
     if mode == "reference":
@@ -57,12 +67,12 @@ def replay_pp(model, n=3, mode="reference"):
     pvt2 = dict(pvt)
     for k in RHO:
         pvt2[k] = pvt[k] * m["scale"]
-    got2 = np.asarray(fp.pseudopressure_threephase(p, so, pvt2, kr), dtype=float)
+    got2 = np.asarray(fp.pseudopressure_threephase(p_in, so_in, pvt2, kr), dtype=float)
     bad = bool(np.any(np.abs(got2 - m["scale"] * got) > 1e-9 * (np.abs(got2).max() + 1e-300)))
     return bad, {"what": f"mobility scaled by {m['scale']!r}: {got2.tolist()} vs {m['scale']!r} x {got.tolist()}", "inputs": m}
 
 
-def job_pp(job, n):
+def job_pp(job, n, labelled=False):
     mod = _load()
     job.encoded(mod, "pseudopressure_threephase")
     job.stub("pvt[...] / kr[...] interpolators: positive uninterpreted functions; scipy cumulative_trapezoid: exact")
@@ -82,11 +92,23 @@ def job_pp(job, n):
         pvt2[k] = vs[k] * vs["scale"]
     kr = {k: _uf(k) for k in KR_FUNCS}
     parr, soarr = SymArray(ps, "f8"), SymArray(so, "f8")
+    ltag = ""
+    if labelled:
+        # pandas columns of a frame that was sorted into increasing pressure: values in order, labels n-1 .. 0
+        lab = list(range(n - 1, -1, -1))
+        parr, soarr = pd_shim.SymSeries(ps, "f8", lab), pd_shim.SymSeries(so, "f8", lab)
+        ltag = ",Series labelled n-1..0"
+        job.bound(labelled_rows="pressure and So are pandas Series whose index labels are n-1..0 in row order (a table put in "
+                                "order with sort_values); positions, not labels, define the grid")
     res = paths(job, lambda: (mod.pseudopressure_threephase(parr, soarr, pvt, kr),
                               mod.pseudopressure_threephase(parr, soarr, pvt2, kr)), dom)
     for k, pr in enumerate(res):
         if pr.exc is not None:
-            job.errors.append(f"pseudopressure path {k} raised {pr.exc!r}")
+            if isinstance(pr.exc, (KeyError, IndexError, ValueError, TypeError)):
+                job.prove(f"pp[{n}{ltag}]/raises {type(pr.exc).__name__}[path{k}]", pr.pc, bound=f"{n} rows", note=repr(pr.exc)[:100],
+                          replay=(replay_pp, {"n": n, "mode": "reference", "labelled": labelled}))
+            else:
+                job.errors.append(f"pseudopressure path {k} raised {pr.exc!r}")
             continue
         got, got2 = pr.value
         lam = [mobility(pvt, kr, ps[j], so[j]) for j in range(n)]
@@ -101,17 +123,17 @@ def job_pp(job, n):
         for j in range(n):
             d = T.p_sub(P(got.d[j]), P(want[j]))
             neq = T.b_const(False) if d.is_zero() else T.b_or(T.b_lt(tolb, d), T.b_lt(tolb, T.p_neg(d)))
-            job.prove(f"pp[{n}]/row{j}==trapezoid of documented mobility[path{k}]", pr.pc + [neq], bound=f"{n} rows, any table",
-                      replay=(replay_pp, {"n": n, "mode": "reference"}))
-        job.prove(f"pp[{n}]/first row 0[path{k}]", pr.pc + [T.b_not(T.b_eq0(P(got.d[0])))], bound=f"{n} rows",
-                  replay=(replay_pp, {"n": n, "mode": "increasing"}))
-        job.prove(f"pp[{n}]/strictly increasing for positive mobility[path{k}]",
+            job.prove(f"pp[{n}{ltag}]/row{j}==trapezoid of documented mobility[path{k}]", pr.pc + [neq], bound=f"{n} rows, any table",
+                      replay=(replay_pp, {"n": n, "mode": "reference", "labelled": labelled}))
+        job.prove(f"pp[{n}{ltag}]/first row 0[path{k}]", pr.pc + [T.b_not(T.b_eq0(P(got.d[0])))], bound=f"{n} rows",
+                  replay=(replay_pp, {"n": n, "mode": "increasing", "labelled": labelled}))
+        job.prove(f"pp[{n}{ltag}]/strictly increasing for positive mobility[path{k}]",
                   pr.pc + [T.b_or(*[T.b_le(P(got.d[j + 1]), P(got.d[j])) for j in range(n - 1)])], bound=f"{n} rows",
-                  replay=(replay_pp, {"n": n, "mode": "increasing"}))
-        job.prove(f"pp[{n}]/homogeneous in mobility[path{k}]",
+                  replay=(replay_pp, {"n": n, "mode": "increasing", "labelled": labelled}))
+        job.prove(f"pp[{n}{ltag}]/homogeneous in mobility[path{k}]",
                   pr.pc + [T.b_or(*[T.b_not(T.b_eq0(T.p_sub(P(got2.d[j]), P(vs["scale"] * got.d[j])))) for j in range(n)])],
-                  bound=f"{n} rows", replay=(replay_pp, {"n": n, "mode": "scale"}))
-        job.prove(f"pp[{n}]/reach[path{k}]", pr.pc, expect="sat")
+                  bound=f"{n} rows", replay=(replay_pp, {"n": n, "mode": "scale", "labelled": labelled}))
+        job.prove(f"pp[{n}{ltag}]/reach[path{k}]", pr.pc, expect="sat")
     # translator validation
     import numpy as np
     from bluebonnet.flow import flowproperties as fp
@@ -255,7 +277,7 @@ def job_table(job, n, node):
 
 
 def jobs(tier):
-    out = [("pp3", lambda j: job_pp(j, 3))]
+    out = [("pp3", lambda j: job_pp(j, 3)), ("pp3-labelled", lambda j: job_pp(j, 3, labelled=True))]
     if tier != "quick":
         out += [("pp4", lambda j: job_pp(j, 4)), ("pp5", lambda j: job_pp(j, 5))]
     out += [("table3-node1", lambda j: job_table(j, 3, 1)), ("table3-node2", lambda j: job_table(j, 3, 2))]
